@@ -265,7 +265,7 @@ Judge(C, s, ev, r, prevchk) ==
 (* ent = what was recorded when the algo was entered: the strategy, its    *)
 (* value B, the targets w, the cash fraction c, the costs paid so far.     *)
 (***************************************************************************)
-NoEnt == [active |-> FALSE, node |-> 0, val |-> Zero, w |-> <<>>, cash |-> NaN, cost |-> Zero]
+NoEnt == [active |-> FALSE, node |-> 0, val |-> Zero, w |-> <<>>, cash |-> NaN, cost |-> Zero, notl |-> NaN, snotl |-> Zero]
 CostSoFar(C, s) == RAdd(SumAll(s.fee, StratSeq(C)), SumAll(s.bop, SecSeq(C)))
 TargetOf(w, k) == LET S == {i \in 1..Len(w) : w[i][1] = k}
                   IN  IF S = {} THEN NaN ELSE w[CHOOSE i \in S : TRUE][2]
@@ -296,6 +296,37 @@ C06Clauses(C, post, e) ==
                         ELSE ChkCmp(Cmp(dev, bnd), {-1, 0})>>]
 
 \* (a value outside 32-bit rationals also hides whether the tree is bankrupt)
+(***************************************************************************)
+(* C17: post-condition of Rebalance in a fixed-income strategy: every      *)
+(* targeted child ends at weight x base notional, base = the notional set  *)
+(* by SetNotional (temp['notional_value'], zero included) or, absent that, *)
+(* the strategy's notional on entry; children not targeted are closed.     *)
+(***************************************************************************)
+C17Clauses(C, post, e) ==
+  LET n    == e.node
+      base == IF IsNaN(e.notl) THEN e.snotl ELSE e.notl
+      K    == RSub(CostSoFar(C, post), e.cost)
+  IN  IF ~C.fi[n] THEN <<>> ELSE
+      [i \in 1..Len(C.kids[n]) |->
+         LET k == C.kids[n][i]
+             w == TargetOf(e.w, k)
+         IN  IF IsNaN(w) THEN (IF IsSec(C, k) THEN <<"C17.rebalance_closed", k, ChkBool(IsZero(post.pos[k]))>>
+                               ELSE <<"C17.rebalance_closed", k, "skip">>)
+             ELSE IF Bad(w) \/ Bad(base) THEN <<"C17.rebalance_target", k, "skip">>
+             ELSE LET tgt == RMul(w, base)
+                  IN  IF IsSec(C, k) /\ C.fi[k] /\ C.kind[k] \in {"cpsec", "fisec"}
+                      THEN \* a fixed-income child is transacted in notional terms: exact
+                           <<"C17.rebalance_target", k, ChkEq(Notl(C, post, k), tgt, C.D)>>
+                      ELSE IF C.kind[k] = "sec"
+                      THEN \* a plain security is allocated capital: within one unit and the costs paid
+                           LET dev == RAbs(RSub(Notl(C, post, k), tgt))
+                               bnd == RAdd(RAdd(RAdd(UnitPx(C, post, k), HalfSpread(C, post, k, One)),
+                                                FeeOf(C, post, k, One)), RAdd(K, K))
+                           IN  <<"C17.rebalance_target", k, ChkCmp(Cmp(dev, bnd), {-1, 0})>>
+                      ELSE \* (hedges carry no notional; a FixedIncomeSecurity without the fixed-income
+                           \* flag is allocated capital although its notional is its position)
+                           <<"C17.rebalance_target", k, "skip">>]
+
 Poisoned(C, s) == \E n \in Nodes(C) : IsOvf(s.cash[n]) \/ IsOvf(s.pos[n]) \/ IsOvf(s.sval[n])
 
 Knowns(cl) == {<<cl[i][3], cl[i][1], cl[i][2]>> : i \in {j \in 1..Len(cl) : cl[j][3] \notin {"ok", "fail", "skip"}}}
@@ -339,7 +370,7 @@ Next ==
                  cl1 == IF ExpectRaise(C, st, ev, r.st)
                         THEN Append(cl0, <<"C10.mustraise", ev.node, "fail">>) ELSE cl0
                  cl  == IF ev.op = "algo_exit" /\ ev.algo = "Rebalance" /\ ent.active /\ ent.node = ev.node
-                        THEN cl1 \o C06Clauses(C, st, ent) ELSE cl1
+                        THEN cl1 \o C06Clauses(C, st, ent) \o C17Clauses(C, st, ent) ELSE cl1
                  fails == Names(cl, "fail")
              IN  IF fails # {}
                  THEN /\ Verdict(tr.tid, IF kf = "none" THEN "FAIL" ELSE "KNOWN", l, fails, kf)
@@ -362,7 +393,9 @@ Next ==
                       /\ ent' = IF ev.op = "algo_enter" /\ ev.algo = "Rebalance" /\ ev.hasw
                                 THEN [active |-> TRUE, node |-> ev.node,
                                       val |-> IF st.fresh THEN st.sval[ev.node] ELSE Val(C, st, ev.node),
-                                      w |-> ev.w, cash |-> ev.wcash, cost |-> CostSoFar(C, st)]
+                                      w |-> ev.w, cash |-> ev.wcash, cost |-> CostSoFar(C, st),
+                                      notl |-> ev.wnotl,
+                                      snotl |-> IF st.fresh THEN st.snotl[ev.node] ELSE Notl(C, st, ev.node)]
                                 ELSE IF ev.op = "algo_exit" /\ ev.algo = "Rebalance" THEN NoEnt ELSE ent
                       /\ settled' = IF ev.op \in {"update", "read"} THEN TRUE
                                     ELSE IF ev.op = "flatten" THEN FALSE
